@@ -7,7 +7,8 @@ export GOFLAGS=-mod=mod GOPROXY=off GOSUMDB=off GOTOOLCHAIN=local
 SRC=$1; DEMO_DST=$2; PKG=$3; RUNRX=$4; shift 4
 W=/tmp/sv-$$
 git -C /repo worktree add -q --detach $W HEAD || exit 2
-trap 'git -C /repo worktree remove --force $W; rm -rf $W /verif/.work/bin-*' EXIT
+BINDIR=/verif/.work/bin-$(python3 -c "import hashlib,sys;print(hashlib.sha1(sys.argv[1].encode()).hexdigest()[:8])" $W)
+trap 'git -C /repo worktree remove --force $W; rm -rf $W $BINDIR' EXIT
 cd $W
 DEMO_SRC=$(ls $SRC/*_test.go | head -1)
 cp $DEMO_SRC $DEMO_DST
